@@ -374,3 +374,131 @@ Proof.
     rewrite andb_false_r. cbn [andb]. destruct (update_trial_condition _ _ _ _ _) as [[dbw cs] ct].
     intro H. apply app_eq_nil in H as [H _]. discriminate.
 Qed.
+
+(* ------------------------------------------------------------------ C06: Succeeded is exclusive and needs an objective value *)
+
+Definition good_conds (cs : conds) (o : obs) : Prop :=
+  has_cond cs TSucceeded = true ->
+  has_cond cs TFailed = false /\ has_cond cs TMetricsUnavailable = false /\ has_cond cs TEarlyStopped = false /\ obs_available o = true.
+
+Definition tgood (t : trial) : Prop := good_conds (t_conds t) (t_obs t).
+
+Lemma not_completed_parts t : t_completed t = false ->
+  t_is t TSucceeded = false /\ t_is t TFailed = false /\ t_is t TKilled = false /\ t_is t TEarlyStopped = false /\ t_is t TMetricsUnavailable = false.
+Proof. unfold t_completed. intro H. repeat (apply orb_false_iff in H as [H ?]). auto. Qed.
+
+Lemma utc_good cf now t o js dbw cs ct :
+  update_trial_condition cf now t o js = (dbw, cs, ct) ->
+  t_completed t = false \/ t_is t TEarlyStopped = true -> tgood t -> good_conds cs o.
+Proof.
+  intros U G T.
+  assert (S0 : has_cond (t_conds t) TSucceeded = false).
+  { destruct G as [G|G]; [apply not_completed_parts in G; tauto|].
+    destruct (has_cond (t_conds t) TSucceeded) eqn:S; [|reflexivity]. destruct (T S) as (_&_&E&_). unfold t_is in G. congruence. }
+  unfold update_trial_condition in U.
+  destruct js; repeat match type of U with context [if ?c then _ else _] => destruct c eqn:? end; inversion U; subst;
+    unfold good_conds, tmark_off_and, mark; rewrite ?has_set, ?has_turn_off; cbn [Nat.eqb TSucceeded TFailed TMetricsUnavailable TEarlyStopped TRunning];
+    try (intro K; congruence).
+  (* the branch that marks Succeeded *)
+  intros _.
+  repeat match goal with E : _ && _ = true |- _ => apply andb_true_iff in E as [? ?] end.
+  repeat match goal with E : negb _ = true |- _ => apply negb_true_iff in E end.
+  destruct G as [G|G]; [|unfold t_is in G; congruence].
+  apply not_completed_parts in G. unfold t_is in G. tauto.
+Qed.
+
+Lemma plan_trial_main_good w t dberr n cs o ct rv onf :
+  In (WTrialStatus n cs o ct rv, onf) (plan_trial_main w t dberr) -> tgood t -> good_conds cs o.
+Proof.
+  unfold plan_trial_main.
+  assert (ES : forall o', t_is t TEarlyStopped = true -> tgood t -> good_conds (t_conds t) o').
+  { intros o' E T S. destruct (T S) as (_&_&E'&_). unfold t_is in E. congruence. }
+  destruct (find_job (t_name t) (w_jobs w)) as [j|].
+  - destruct (t_completed t && negb (c_retain (w_cfg w))).
+    + destruct (t_is t TEarlyStopped && negb (t_obs_available t)) eqn:E.
+      * apply andb_true_iff in E as [E _]. destruct dberr; [intros [X|[]]; inversion X|].
+        intro H. apply in_app_or in H as [[X|[]]|H]; [inversion X|]. apply in_trial_status_write in H. inversion H; subst. now apply ES.
+      * intros [X|[]]; inversion X.
+    + destruct (negb (t_completed t) || t_is t TEarlyStopped) eqn:G; [|intros []].
+      destruct (match j_phase j with JFail => Some JSFailed | JSucc => Some JSSucceeded
+                                | JActive => if negb (t_is t TRunning) then Some JSRunning else None end) as [js|]; [|intros []].
+      match goal with |- In _ (if ?c then _ else _) -> _ => destruct c end; [intros []|].
+      match goal with |- In _ (if ?c then _ else _) -> _ => destruct c end; [intros []|].
+      destruct (update_trial_condition _ _ _ _ _) as [[dbw cs'] ct'] eqn:U.
+      intro H. apply in_app_or in H as [H|H]; [destruct H|]. apply in_app_or in H as [H|H].
+      * apply (update_trial_condition_db _ _ _ _ _ _ _ _ _ U) in H as [X _]. inversion X.
+      * apply in_trial_status_write in H. inversion H; subst. eapply utc_good; eauto.
+        apply orb_true_iff in G as [G|G]; [left; now apply negb_true_iff in G|now right].
+  - destruct (t_completed t) eqn:C.
+    + destruct (t_is t TEarlyStopped && negb (t_obs_available t)) eqn:E; [|intros []].
+      apply andb_true_iff in E as [E _]. destruct dberr; [intros []|].
+      intro H. apply in_app_or in H as [[]|H]. apply in_trial_status_write in H. inversion H; subst. now apply ES.
+    + cbn [negb orb].
+      destruct (if negb (t_is t TRunning) then Some JSRunning else None) as [js|]; [|intros [X|[]]; inversion X].
+      match goal with |- In _ (if ?c then _ else _) -> _ => destruct c end; [intros [X|[]]; inversion X|].
+      match goal with |- In _ (if ?c then _ else _) -> _ => destruct c end; [intros [X|[]]; inversion X|].
+      destruct (update_trial_condition _ _ _ _ _) as [[dbw cs'] ct'] eqn:U.
+      intro H. apply in_app_or in H as [H|H]; [destruct H as [X|[]]; inversion X|].
+      apply in_app_or in H as [H|H].
+      * apply (update_trial_condition_db _ _ _ _ _ _ _ _ _ U) in H as [X _]. inversion X.
+      * apply in_trial_status_write in H. inversion H; subst. eapply utc_good; eauto.
+Qed.
+
+Lemma plan_trial_good w key dberr n cs o ct rv onf :
+  In (WTrialStatus n cs o ct rv, onf) (plan_trial w key dberr) ->
+  exists t, find_trial key (c_trials w) = Some t /\ (tgood t -> good_conds cs o).
+Proof.
+  unfold plan_trial. destruct (find_trial key (c_trials w)) as [t|]; [|intros []]. intro H. exists t. split; [reflexivity|].
+  destruct (negb (t_deleting t) && negb (t_fin t)); [destruct H as [X|[]]; inversion X|].
+  destruct (t_deleting t && t_fin t); [destruct H as [X|[X|[]]]; inversion X|].
+  destruct (negb (t_is t TCreated)).
+  - apply in_trial_status_write in H. inversion H; subst. intros T S.
+    unfold mark in *. rewrite has_set in S. cbn in S. rewrite !has_set. cbn. now apply T.
+  - intro T. eapply plan_trial_main_good; eauto.
+Qed.
+
+(* ------------------------------------------------------------------ C03: a reconcile that sees a settled verdict does not touch it *)
+
+Definition verdict_same (a b : estatus) : Prop :=
+  get_cond (es_conds b) ESucceeded = get_cond (es_conds a) ESucceeded /\
+  get_cond (es_conds b) EFailed = get_cond (es_conds a) EFailed /\
+  has_cond (es_conds b) ERunning = has_cond (es_conds a) ERunning /\
+  es_ctime b = es_ctime a.
+
+Lemma verdict_same_refl a : verdict_same a a.
+Proof. repeat split. Qed.
+
+Lemma update_status_completed cf mx now st ts :
+  e_completed st = true ->
+  es_conds (update_status cf mx now st ts) = es_conds st /\ es_ctime (update_status cf mx now st ts) = es_ctime st.
+Proof.
+  intro C. unfold update_status. destruct (scan_best _ _ _ _ _) as [best reached].
+  match goal with |- context [if ?c then _ else _] => assert (E : c = true) by exact C end. rewrite E. split; reflexivity.
+Qed.
+
+Lemma plan_exp_settled w e st rv onf :
+  c_exp w = Some e -> In (WExpStatus st rv, onf) (plan_exp w) ->
+  e_completed (e_st e) = true -> restart_enabled_e (w_cfg w) e = false -> verdict_same (e_st e) st.
+Proof.
+  intros Hc H C R. unfold plan_exp in H. rewrite Hc in H.
+  destruct (negb (e_deleting e) && negb (e_fin e)); [destruct H as [X|[]]; inversion X|].
+  destruct (e_deleting e && e_fin e); [destruct H as [X|[]]; inversion X|].
+  destruct (plan_exp_completed (w_cfg w) e (c_sug w)) as [[ws1 st1] stop] eqn:PC.
+  assert (S1 : st1 = e_st e) by (eapply plan_completed_stable; eauto). subst st1.
+  assert (N1 : ~ In (WExpStatus st rv, onf) ws1).
+  { intro I. revert PC. unfold plan_exp_completed. rewrite C. unfold restart_enabled_e in R. rewrite R. intros [= <- _].
+    destruct (c_resume (w_cfg w)), (c_sug w) as [s|]; try (destruct I; fail);
+      (destruct (s_completed (s_st s) || s_restarting (s_st s)); [destruct I|destruct I as [X|[]]; inversion X]). }
+  destruct stop; [contradiction|].
+  destruct (negb (e_is (e_st e) ECreated)).
+  - apply in_app_or in H as [H|H]; [contradiction|]. apply in_status_write in H. inversion H; subst.
+    unfold verdict_same, mark. cbn [es_conds es_ctime with_conds]. rewrite !get_set_other by discriminate. rewrite has_set. cbn. auto.
+  - apply in_app_or in H as [H|H]; [contradiction|]. unfold plan_exp_reconcile in H.
+    set (st2 := match c_trials w with [] => e_st e | _ => update_status (w_cfg w) (e_max e) (w_clock w) (e_st e) (c_trials w) end) in *.
+    assert (S2 : es_conds st2 = es_conds (e_st e) /\ es_ctime st2 = es_ctime (e_st e)).
+    { unfold st2. destruct (c_trials w); [auto|]. now apply update_status_completed. }
+    destruct S2 as [S2 S3].
+    assert (C2 : e_completed st2 = true) by (unfold e_completed, e_is in *; now rewrite S2).
+    rewrite C2 in H. apply in_status_write in H. inversion H; subst.
+    unfold verdict_same. rewrite S2, S3. auto.
+Qed.
